@@ -124,7 +124,7 @@ c.defaults = {"style": None}
 ANSI_FORMAT_STACK = {"qual": ANSI_FORMAT, "tag": "stack"}
 R.abstractions = getattr(R, "abstractions", {})
 R.abstractions.setdefault(ANSI_FORMAT, []).append(
-    ("self._ESCAPE_BEFORE_CODES.sub('\\\\1', formatted)", "str",
+    ("self._ESCAPE_BEFORE_CODES.sub(*", "str",
      "post-processing of the decorated text by a compiled pattern (re, external): a string computed from the decorated "
      "text only - no effect on the style stack; what it removes is checked by C11.B.renderings"))
 
